@@ -273,8 +273,12 @@ def gen_inputs(tier, rng):
 
 # ----------------------------------------------------------------------------- implementation calls
 def is_exact(ps, ss):
-    dy = lambda q: (F(q).denominator & (F(q).denominator - 1)) == 0 and F(q).denominator <= 1024 and abs(F(q).numerator) < 2 ** 20   # small dyadic (F(0.1) is dyadic too, but products with it round)
-    return all(dy(p) for p in ps) and all(s in (1, 2, 4, 8, 16) for s in ss)
+    """every double operation of the implementation is exact: pixel scales are powers of two (the code DIVIDES the origin and
+    the sub-step by them: 3/2 or F(0.1) round), sub-sizes are powers of two; origins / coefficients are small dyadics by construction"""
+    def pow2(q):
+        q = F(q); n, d = abs(q.numerator), q.denominator
+        return n > 0 and (n & (n - 1)) == 0 and (d & (d - 1)) == 0 and n <= 1024 and d <= 1024
+    return all(pow2(p) for p in ps) and all(s in (1, 2, 4, 8, 16) for s in ss)
 def qlist(a): return [frac(v) for v in np.asarray(a, dtype=float).ravel()]
 def qqlist(a): return [(frac(r[0]), frac(r[1])) for r in np.asarray(a, dtype=float).reshape(-1, 2)]
 
